@@ -229,6 +229,8 @@ def numbering():
         [{'statement': 'B', 'run_no_start_from': 1}, {'statement': 'B'}, {'run_no_start_from': 2}],
         [{'trace_threads': True}, {'statement': 'C', 'trace_modules': True}, {}],
         [{'statement': 'A'}, {'statement': 'A', 'run_no_start_from': 3}, {'run_no_start_from': 3}],
+        # large numbers (beyond CPython's shared small integers: an identity comparison of numbers would show)
+        [{'run_no_start_from': 1000}, {}, {'run_no_start_from': 1000}, {'statement': 'B'}],
         # tracing options switched on and off again, together and one at a time
         [{'trace_threads': True, 'trace_modules': True}, {'trace_threads': False}, {'trace_modules': False}, {'trace_threads': True}],
         [{'trace_modules': True}, {'trace_modules': False, 'statement': 'B'}, {'trace_threads': False, 'trace_modules': True}],
